@@ -643,6 +643,14 @@ def judge_celsius(case: dict[str, Any]) -> tuple[list[tuple[str, str]], list[str
         if not near(back, xm):
             out.append(("celsius:prefixed-kelvin", f"from_kelvin_quantity(Quantity({sympy.N(mag, 17)} * {UX.text([term])})).value = "
                 f"{back!r}, expected {x!r}"))
+        # the same temperature as a quantity that got its dimension from the dimension= keyword (a bare number of kelvins),
+        # as evaluate_quantity / Abs / vector components produce them
+        from sympy.physics import units as _su
+        qd = Quantity(float(xm + off) if case["x"][0] == "float" else xm + off, dimension=_su.temperature)
+        back = from_kelvin_quantity(qd).value
+        if not near(back, xm):
+            out.append(("celsius:dimension-keyword-quantity", f"from_kelvin_quantity(Quantity({sympy.N(xm + off, 17)}, "
+                f"dimension=temperature)).value = {back!r}, expected {x!r}"))
     except Exception as exc:  # pylint: disable=broad-except
         out.append(("celsius:exception:" + type(exc).__name__, f"Celsius helpers raised {_exc(exc)} for x={x!r}"))
     return out, labels
